@@ -85,6 +85,12 @@ func genC15Object(r *rand.Rand, st map[string]int) j {
 		meta["annotations"] = ann
 	}
 	obj := j{"apiVersion": "apps.pingcap.com/v1", "kind": "StatefulSet", "metadata": meta, "spec": spec}
+	if r.Intn(40) == 0 {
+		// nothing in the shipped schema makes spec itself required: an object without any spec is admitted
+		// (and, having no spec, receives none of the defaults)
+		delete(obj, "spec")
+		st["objects_without_spec"]++
+	}
 	switch r.Intn(6) {
 	case 0:
 		obj["status"] = j{}
@@ -222,10 +228,10 @@ func init() {
 	n1 := scenarioCases(40000, 600000)
 	register(&Check{Prop: "C15", Level: "exploration",
 		Rule: "StatefulSets are generated as JSON over the fields the shipped CRD knows (each optional block absent / empty / partially filled / hostile: nil and negative partition, unknown policy and strategy strings, malformed and out-of-range annotations, hostile status), admitted and defaulted by an interpreter of manifests/crd.v1.yaml, decoded into the Go type, with or without client-side defaulting, combined with a random pod population at ordinals 0..9, then reconciled 6 times with kubelet progress in between; plus the hostile scenario family (defaulted specs under faults, lag, restarts, deleted and re-created sets, caches catching up mid-reconcile) under the same panic monitor; a panic (or a dead worker process) is a violation; distinct = distinct (admitted object, population)",
-		Assume: []string{"objects without a spec at all, and replicas so large that the per-ordinal slice cannot be allocated, are outside the generated domain (the statement lists the four required spec fields as validated)",
+		Assume: []string{"replicas so large that the per-ordinal slice cannot be allocated are outside the generated domain (an out-of-memory question)",
 			"JSON that the CRD admits but that does not decode into the Go type never reaches the controller (the informer fails earlier) and is skipped"},
 		Cases:            func(t string) int { return n1(t) + scenarioCases(2400, 48000)(t) },
 		Run:              both(runC15, n1, runC15Hostile),
-		Floors:           []string{"reconciled_with_nil_partition", "reconciled_with_negative_partition", "without_client_side_defaulting", "with_client_side_defaulting", "annotation_slots_malformed", "hostile_scenario_reconciles"},
+		Floors:           []string{"reconciled_with_nil_partition", "reconciled_with_negative_partition", "without_client_side_defaulting", "with_client_side_defaulting", "annotation_slots_malformed", "hostile_scenario_reconciles", "objects_without_spec"},
 		DeathIsViolation: true})
 }
